@@ -576,6 +576,14 @@ class Program(object):
                 return left % right
             if isinstance(node.op, ast.BitOr):
                 return left | right
+            if isinstance(node.op, ast.Mult) and (
+                    (isinstance(left, (list, tuple, str)) and isinstance(right, int))
+                    or (isinstance(right, (list, tuple, str)) and isinstance(left, int))) and \
+                    (left if isinstance(left, int) else right) <= 64:
+                return left * right
+            if isinstance(node.op, ast.Sub) and isinstance(left, (set, frozenset)) and isinstance(
+                    right, (set, frozenset)):
+                return left - right
             raise NotFoldable("binop")
         if isinstance(node, ast.JoinedStr):
             raise NotFoldable("f-string")
@@ -619,10 +627,17 @@ class Program(object):
                 base = self.resolve_name_expr(fn.value, module)
                 if isinstance(base, Module) and fn.attr in base.functions:
                     target = base.functions[fn.attr]
-            if target is not None and not any(isinstance(a, ast.Starred) for a in node.args) \
-                    and not any(k.arg is None for k in node.keywords):
+            if target is not None and not any(k.arg is None for k in node.keywords):
                 from sa.pureeval import PureEval
-                args = [f(a) for a in node.args]
+                args = []
+                for a in node.args:
+                    if isinstance(a, ast.Starred):
+                        seq = f(a.value)
+                        if not isinstance(seq, (list, tuple)):
+                            raise NotFoldable("star argument %s" % unparse(a))
+                        args.extend(seq)
+                    else:
+                        args.append(f(a))
                 kwargs = {k.arg: f(k.value) for k in node.keywords}
                 if any(isinstance(a, Opaque) for a in args + list(kwargs.values())):
                     raise NotFoldable("opaque argument")
